@@ -493,6 +493,6 @@ def correspond(ctx):
 def regenerate(ctx):
   c02.regenerate(ctx)
   # Props/C31.v does not import the generated file, the correspondence cases do
-  rc, out = core.coq_make(['gen/StoredLog_gen.vo'])
+  rc, out = core.coq_make(['gen/StoredLog_gen.vo', 'gen/StoredLogPy_gen.vo'])
   if rc != 0:
     raise core.TieBroken('coq/gen/StoredLog_gen.v does not compile: %s' % out[-1500:])
